@@ -393,7 +393,7 @@ func c17Pad(c *Ctx, m *Module) {
 	for _, l := range naturalLoops(pad) {
 		for b := range l.blocks {
 			for _, in := range b.Instrs {
-				if lk, ok := in.(*ssa.Lookup); ok && strings.HasPrefix(describe(lk.Index), `fmt.Sprintf("%s-%s"`) {
+				if lk, ok := in.(*ssa.Lookup); ok && isPrereleaseKey(describe(lk.Index)) {
 					if scan == nil || len(l.blocks) < len(scan.blocks) {
 						scan = l
 					}
@@ -674,4 +674,10 @@ func c17MinVersionFold(c *Ctx, m *Module, gen *ssa.Function) {
 		okAll = walkWithout(start, func(in ssa.Instruction) bool { return in == inner.header.Instrs[0] }, isFold) == nil
 	}
 	r.Check("C17.generate-shape", "generate/every record takes part in the minimum", m.Pos(folds[0].Pos()), okAll, "no path to the next record may skip the fold step")
+}
+
+// isPrereleaseKey: the rendering of "<version>-<prerelease pattern>", built with Sprintf or by
+// concatenation.
+func isPrereleaseKey(d string) bool {
+	return strings.HasPrefix(d, `fmt.Sprintf("%s-%s"`) || (strings.HasPrefix(d, "((") && strings.Contains(d, ` + "-") + `))
 }
